@@ -109,6 +109,7 @@ func c08Prop(t *testing.T, k *verifkit.Kit) func(sc advScenario) error {
 		for _, l := range sc.Lat {
 			sc.WaitNS += 3 * l.NS // a transmission in flight, then the final one: the wait is the harness's patience, not a verdict
 		}
+		sc.WaitNS += 50 * sc.StateDelayNS
 		r := runAdvertiser(t, sc, nil)
 		if r.W == nil {
 			return fmt.Errorf("verif: world not created: %v", r.Panic)
@@ -171,7 +172,7 @@ func c08Gen(t *rapid.T) advScenario {
 		sc.Lat = []latRule{{Dst: "multicast", N: rapid.IntRange(1, 3).Draw(t, "mn"), NS: c08Lat(t, "mlat")}}
 	}
 	if rapid.IntRange(0, 5).Draw(t, "statedelay") == 0 {
-		sc.StateDelayNS = rapid.SampledFrom([]int64{1, int64(time.Millisecond), 300 * int64(time.Millisecond)}).Draw(t, "sd")
+		sc.StateDelayNS = rapid.SampledFrom([]int64{1, int64(time.Millisecond), 300 * int64(time.Millisecond), 4 * s}).Draw(t, "sd")
 	}
 	if len(sc.Lat) > 0 && sc.Lat[0].NS > 0 && rapid.IntRange(0, 2).Draw(t, "failsafterstop") == 0 {
 		// a transmission that is in flight when the stop arrives and fails afterwards (the link went away): the stop
